@@ -391,6 +391,40 @@ def replay_case(rec):
         obs, cache = replay_history(case["world"], case["hist"])
         log("replay: history %s -> obs %s cache %s (spec: %s %s)" % (case["hist"], obs, cache, case["spec_obs"], case["spec_cache"]))
         return obs != case["spec_obs"] or any(v not in ("none", k) for k, v in cache.items())
+    if case.get("kind") == "replay-wrappers":
+        # the history of Wrappers.tla is performed again on real objects; the expected answer is the fresh verdict of the class
+        # named by the specification on the sequence named by the specification
+        import random
+        from Bio.Seq import Seq
+        from moclo.record import CircularRecord
+        from .. import scenario
+        loader.load()
+        import moclo.kits.ytk, moclo.kits.cidar, moclo.kits.ecoflex, moclo.kits.moclo, moclo.kits.plant  # noqa
+        _server[0] = forked.Server()
+        rng = random.Random(int(case.get("seed", 0)) * 1000003 + 6)
+        G = gen.Geometry("GGTCTC", 1, 4)
+        up, down = "AATG", "GCTT"
+        valid = G.module(up, "ACGTAC", down, "TTAACA", rng)
+        seqs = {"valid": valid, "rotated": gen.rotate(valid, len(valid) - 3), "broken": valid[:2] + "A" + valid[3:]}
+        cspecs = {"G": {"generic": "module", "enz": {"name": "BsaI"}}, "P": {"part": "module", "enz": {"name": "BsaI"}, "sig": [up, down]}}
+        clss = {c: classes.build(sp) for c, sp in cspecs.items()}
+        init = case.get("init") or {}
+        recs = {r: CircularRecord(Seq(seqs[init.get(r, "valid")]), id=r, name=r) for r in ("r1", "r2")}
+        ws, wc, res = [], [], None
+        for step in case["hist"]:
+            if step[0] == "new":
+                ws.append(clss[step[1]](recs[step[2]]))
+                wc.append(step[1])
+            elif step[0] == "ask":
+                res = scenario.query_wrapper(ws[step[1] - 1], clss[wc[step[1] - 1]])
+            elif step[0] == "edit":
+                recs[step[1]].seq = Seq(seqs[step[2]])
+            elif step[0] == "drop":
+                ws[step[1] - 1] = None
+        fr = fresh_answer(cspecs[case["ans"][0]], seqs[case["ans"][1]])
+        log("replay: %s -> valid=%s up=%s ; specification: class %s on the %s sequence -> valid=%s up=%s"
+            % (case["hist"], res["valid"], dna.dec(res["up"]), case["ans"][0], case["ans"][1], fr["valid"], dna.dec(fr["up"])))
+        return (res["valid"], res["up"], res["down"], res["tgt"], res["exc"]) != (fr["valid"], fr["up"], fr["down"], fr["tgt"], fr["exc"])
     if case.get("kind") == "scenario":
         # the history is not stored; the violation is confirmed by re-running the scenario part of the check
         import random
